@@ -1008,6 +1008,12 @@ EXTRACTORS["C03"] = EXTRACTORS["C03"] + [GEN_SRC["SrcSampledGet"], GEN_SRC["SrcO
 # Thm/C06.lean imports RbV.Thm.GenSrcFmd* and restates the theorems
 GEN_SRC.update({n: gen_src(n) for n in ("SrcFmdExt", "SrcFmdSmems", "SrcFmdAllSmems")})
 EXTRACTORS["C06"] = EXTRACTORS.get("C06", []) + [GEN_SRC[n] for n in ("SrcFmdExt", "SrcFmdSmems", "SrcFmdAllSmems")]
+# soft: the unconditional step-by-step equality of `smems` with `SmemModel.smems` (every `l`, dead start included); the hard
+# obligations are `fmd_smems_source_eq_model` (under "nothing is reported when pattern[i] does not occur") and
+# `fmd_smems_source_correct` in Thm/C06.lean
+SOFT_FMD_SMEMS = soft_modules(["RbV.Thm.GenSrcFmdSmemsModel"], "the text of `FMDIndex::smems` no longer follows `SmemModel.smems` step "
+                              "by step on every input (the property-level theorem `fmd_smems_source_correct` is checked separately)")
+EXTRACTORS["C06"] = EXTRACTORS["C06"] + [SOFT_FMD_SMEMS]
 
 # genfmd: `shortest_unique_substrings` (C03) — Thm/C03.lean imports RbV.Thm.GenSrcSus and restates
 GEN_SRC.update({n: gen_src(n) for n in ("SrcSus",)})
